@@ -10,7 +10,8 @@ use std::path::Path;
 
 // "a-b" and "a.c": siblings of "a" whose next byte sorts before '/', i.e. between "a" and "a/..." in byte order
 // "x.txt": a target whose path is a single regular file, not a directory
-pub const DIRS: [&str; 13] = ["a", "ab", "a/c", "a/cd", "a/c/e", "b", "a/c/e/g", "abc", "caf\u{e9}", "caf\u{e9}s", "a-b", "a.c", "x.txt"];
+// "cafe\u{301}": the decomposed spelling (combining accent), "z\u{200d}w": a zero-width joiner inside the name
+pub const DIRS: [&str; 15] = ["a", "ab", "a/c", "a/cd", "a/c/e", "b", "a/c/e/g", "abc", "caf\u{e9}", "caf\u{e9}s", "a-b", "a.c", "x.txt", "cafe\u{301}", "z\u{200d}w"];
 pub const EXTRA: [&str; 12] = [
     "lib", "lib2", "lib/x", "a/f", "a/c/f", "a/c/gen", "ab/f", "b/f", "a/c/e/h", "li", "caf\u{e9}/f", "caf",
 ];
@@ -20,7 +21,7 @@ pub fn setup(root: &Path) {
         root,
         &[
             "a", "ab", "a/c", "a/cd", "a/c/e", "b", "a/c/e/g", "abc", "lib", "lib2", "a/c/gen",
-            "lib/x", "caf\u{e9}", "caf\u{e9}s", "a-b", "a.c",
+            "lib/x", "caf\u{e9}", "caf\u{e9}s", "a-b", "a.c", "cafe\u{301}", "z\u{200d}w",
         ],
         &["x.txt", "a/c/e/h"],
     );
